@@ -833,7 +833,7 @@ theorem simp_total : ∀ fuel : Nat,
     internal error (the Python's IndexError / AssertionError / Exception) is possible, whatever the query, the counter
     and the fuel. -/
 theorem simplify_total (fuel c : Nat) (e : Expr) (hw : wfq e = true) : Good (simplify fuel c e) :=
-  (simp_total fuel).1 [[]] c e wfStack_nil hw
+  (simp_total fuel).1 [[]] _ e wfStack_nil hw
 
 theorem simplify_no_internal_error (fuel c : Nat) (e : Expr) (hw : wfq e = true) (what : String) :
     simplify fuel c e ≠ .error (.internal what) := by
